@@ -1,0 +1,18 @@
+//go:build verif
+// +build verif
+
+/*
+Copyright SecureKey Technologies Inc. All Rights Reserved.
+
+SPDX-License-Identifier: Apache-2.0
+*/
+
+package batch
+
+// VerifStep runs one processing step of the batch writer (what the monitor ticker, force=false,
+// or the batch timeout ticker, force=true, triggers) synchronously, so that a verification
+// harness - not wall-clock tickers - chooses the schedule. It returns the number of pending
+// operations. Only built with the 'verif' build tag.
+func (r *Writer) VerifStep(force bool) uint {
+	return r.processAvailable(force)
+}
